@@ -524,6 +524,12 @@ func runC13(c *engine.Ctx) {
 
 	// ---- R13 rotation never divides by an empty member list (shared with C16.R19) ----
 	c16DivByLen(c, "R13")
+
+	// ---- R14 a member that left its group stops accepting (shared with C11.R16) ----
+	checkAcceptRetry(c, "R14")
+
+	// ---- R15 ----
+	checkRotationOrder(c, "R15")
 }
 
 // identityWidth: how many basic values a group identity slot holds — 1 for a basic field, n for a struct of n basic
@@ -615,4 +621,87 @@ func checkCleanupAfterAcquire(c *engine.Ctx) int {
 		})
 	}
 	return n
+}
+
+// checkRotationOrder (R15): round-robin selection `xs[counter % len(xs)]` rotates only when xs keeps its order from
+// one request to the next. A list rebuilt from a map on every request (maps.Keys, a range over the map) starts at a
+// random position each time: the pick is still a live member but no longer a rotation. Such a list must be sorted
+// before it is indexed.
+func checkRotationOrder(c *engine.Ctx, rule string) {
+	c.Rule(rule, "in server/group the sequence indexed by `counter % len(sequence)` is not produced from map iteration (maps.Keys/Values, range over a map) unless it is sorted first")
+	p := c.P
+	n := 0
+	for _, f := range p.RepoFuncs() {
+		if f.Pkg == nil || f.Pkg.Pkg.Path() != engine.ModPath+"/server/group" {
+			continue
+		}
+		f := f
+		engine.ForEachInstr(f, func(in ssa.Instruction) {
+			bo, ok := in.(*ssa.BinOp)
+			if !ok || bo.Op != token.REM {
+				return
+			}
+			y := engine.Unwrap(bo.Y)
+			for i := 0; i < 3; i++ {
+				if cv, ok := y.(*ssa.Convert); ok {
+					y = cv.X
+				}
+			}
+			call, ok := y.(*ssa.Call)
+			if !ok {
+				return
+			}
+			if b, ok := call.Call.Value.(*ssa.Builtin); !ok || b.Name() != "len" {
+				return
+			}
+			seq := call.Call.Args[0]
+			if _, isSlice := seq.Type().Underlying().(*types.Slice); !isSlice {
+				return
+			}
+			n++
+			src := engine.DeepSources(p, seq)
+			fromMap, sorted := "", false
+			for o := range src.Calls {
+				if o.Pkg() == nil {
+					continue
+				}
+				switch o.Pkg().Path() {
+				case "maps":
+					fromMap = "maps." + o.Name()
+				case "github.com/samber/lo":
+					if o.Name() == "Keys" || o.Name() == "Values" {
+						fromMap = "lo." + o.Name()
+					}
+				case "slices", "sort":
+					if strings.HasPrefix(o.Name(), "Sort") || o.Name() == "Strings" {
+						sorted = true
+					}
+				}
+			}
+			for v := range src.Values {
+				if nx, ok := v.(*ssa.Next); ok && !nx.IsString {
+					if r, ok := nx.Iter.(*ssa.Range); ok {
+						if _, isMap := r.X.Type().Underlying().(*types.Map); isMap {
+							fromMap = "a range over a map"
+						}
+					}
+				}
+			}
+			// a sort applied to the sequence in place (slices.Sort(xs) / sort.Strings(xs)) anywhere in the function family
+			if fromMap != "" && !sorted {
+				for _, g := range append([]*ssa.Function{f}, allAnon(f)...) {
+					engine.ForEachInstr(g, func(x ssa.Instruction) {
+						if cl, ok := x.(*ssa.Call); ok {
+							if o := engine.CalleeObj(cl); o != nil && o.Pkg() != nil && (o.Pkg().Path() == "slices" || o.Pkg().Path() == "sort") && (strings.HasPrefix(o.Name(), "Sort") || o.Name() == "Strings") {
+								sorted = true
+							}
+						}
+					})
+				}
+			}
+			c.Check(fromMap == "" || sorted, fmt.Sprintf("%s>rotation-order#%d", p.FuncName(f), n), in.Pos(), len(src.Values), nil,
+				"the rotated sequence %s has a stable order (it is produced by %s and not sorted: every request starts the sequence at a random member)", engine.Describe(seq), fromMap)
+		})
+	}
+	c.Floor(n, 1)
 }
